@@ -1,5 +1,5 @@
 from armulator.armv6.arm_exceptions import EndOfInstruction
-from armulator.armv6.bits_ops import bit_at, bit_count, substring
+from armulator.armv6.bits_ops import add, bit_at, bit_count, substring
 from armulator.armv6.opcodes.opcode import Opcode
 
 
@@ -24,7 +24,7 @@ class PopArm(Opcode):
                             (processor.mem_u_get(address, 4)
                              if self.unaligned_allowed else processor.mem_a_get(address, 4))
                         )
-                        address += 4
+                        address = add(address, 4, 32)
                 if bit_at(self.registers, 15):
                     if self.unaligned_allowed:
                         if substring(address, 1, 0) == 0b00:
@@ -34,6 +34,6 @@ class PopArm(Opcode):
                     else:
                         processor.load_write_pc(processor.mem_a_get(address, 4))
                 if not bit_at(self.registers, 13):
-                    processor.registers.set_sp(processor.registers.get_sp() + (4 * bit_count(self.registers, 1, 16)))
+                    processor.registers.set_sp(add(processor.registers.get_sp(), 4 * bit_count(self.registers, 1, 16), 32))
                 if bit_at(self.registers, 13):
                     processor.registers.set_sp(0x00000000)  # unknown
